@@ -29,6 +29,8 @@ type tqRealCase struct {
 	Batch    int        `json:"batch"`    // batch size
 	Retries  int        `json:"retries"`  // lfs.transfer.maxretries
 	Authenticated bool  `json:"authenticated,omitempty"` // the batch answer marks its objects `authenticated: true` (no credentials are to be added)
+	ExpiresIn     int   `json:"expires_in,omitempty"`     // every action is advertised with this expires_in (seconds); 0 = none
+	SlowMs        int   `json:"slow_ms,omitempty"`        // every storage answer takes this long
 	Contents [][]byte   `json:"-"`
 }
 
@@ -39,6 +41,7 @@ type tqRealObs struct {
 	Errors       []string       `json:"errors"`
 	Valid        map[string]bool `json:"valid"`
 	Gets         map[string]int `json:"gets"`
+	ExpiredUse   []string       `json:"expired_use,omitempty"` // storage requests that used an action after its advertised expiry
 	Panic        string         `json:"panic,omitempty"`
 }
 
@@ -87,7 +90,8 @@ func tqRealChildMain(workdir, js string) {
 			}
 			json.Unmarshal(body, &req)
 			type act struct {
-				Href string `json:"href"`
+				Href      string `json:"href"`
+				ExpiresIn int    `json:"expires_in,omitempty"`
 			}
 			type obj struct {
 				Oid           string         `json:"oid"`
@@ -100,7 +104,7 @@ func tqRealChildMain(workdir, js string) {
 				Objects  []obj  `json:"objects"`
 			}{Transfer: "basic"}
 			for _, o := range req.Objects {
-				out.Objects = append(out.Objects, obj{o.Oid, o.Size, tc.Authenticated, map[string]act{"download": {srv.URL + "/storage/" + o.Oid}}})
+				out.Objects = append(out.Objects, obj{o.Oid, o.Size, tc.Authenticated, map[string]act{"download": {fmt.Sprintf("%s/storage/%s?issued=%d", srv.URL, o.Oid, time.Now().UnixNano()), tc.ExpiresIn}}})
 			}
 			rw.Header().Set("Content-Type", "application/vnd.git-lfs+json")
 			json.NewEncoder(rw).Encode(out)
@@ -110,7 +114,17 @@ func tqRealChildMain(workdir, js string) {
 		mu.Lock()
 		k := obs.Gets[oid]
 		obs.Gets[oid]++
+		if tc.ExpiresIn > 0 {
+			var issued int64
+			fmt.Sscan(r.URL.Query().Get("issued"), &issued)
+			if age := time.Since(time.Unix(0, issued)); issued > 0 && age > time.Duration(tc.ExpiresIn)*time.Second {
+				obs.ExpiredUse = append(obs.ExpiredUse, fmt.Sprintf("%s used %.1fs after it was issued with expires_in=%d", oid[:12], age.Seconds(), tc.ExpiresIn))
+			}
+		}
 		mu.Unlock()
+		if tc.SlowMs > 0 {
+			time.Sleep(time.Duration(tc.SlowMs) * time.Millisecond)
+		}
 		sc := []string{"ok"}
 		if i, ok := idx[oid]; ok && i < len(tc.Scripts) && len(tc.Scripts[i]) > 0 {
 			sc = tc.Scripts[i]
@@ -189,7 +203,7 @@ func tqRealChildMain(workdir, js string) {
 	case <-waited:
 		obs.WaitReturned = true
 		<-watchDone
-	case <-time.After(10 * time.Second):
+	case <-time.After(10*time.Second + time.Duration(tc.SlowMs*len(tc.Sizes)*3)*time.Millisecond):
 		return
 	}
 	for _, e := range q.Errors() {
@@ -248,6 +262,14 @@ func c06Real(c *Ctx, r *Rng, prop string) {
 			tc.Scripts[big] = []string{Pick(r, []string{"503", "500", "429", "404"}), "ok"}
 			tc.Workers = Pick(r, []int{2, 3, 8})
 		}
+		if prop == "C15" && i%16 == 5 {
+			// directed: actions valid when the answer arrives run out while the objects wait for the only worker
+			tc = tqRealCase{Workers: 1, Batch: 100, Retries: 3, ExpiresIn: 6, SlowMs: 2300}
+			for k := 0; k < 4; k++ {
+				tc.Sizes = append(tc.Sizes, 100+k)
+				tc.Scripts = append(tc.Scripts, []string{"ok"})
+			}
+		}
 		results[i].tc = tc
 		wg.Add(1)
 		sem <- struct{}{}
@@ -267,7 +289,7 @@ func c06Real(c *Ctx, r *Rng, prop string) {
 				results[i].raw = string(b)
 				lines := strings.Split(strings.TrimSpace(string(b)), "\n")
 				json.Unmarshal([]byte(lines[len(lines)-1]), &results[i].obs)
-			case <-time.After(40 * time.Second):
+			case <-time.After(40*time.Second + time.Duration(tc.SlowMs*12)*time.Millisecond):
 				if cmd.Process != nil {
 					cmd.Process.Kill()
 				}
@@ -292,6 +314,9 @@ func c06Real(c *Ctx, r *Rng, prop string) {
 		if !o.AddReturned {
 			fail("Add did not return (queue with the real basic adapter)", results[i].raw)
 			continue
+		}
+		for _, e := range o.ExpiredUse {
+			fail("an action was used after its advertised expiry had passed instead of being re-requested (real basic adapter)", e)
 		}
 		if !o.WaitReturned {
 			fail("Wait never returned (queue with the real basic adapter, every object had a terminal outcome)", fmt.Sprintf("delivered=%v gets=%v", o.Delivered, o.Gets))
